@@ -38,6 +38,11 @@ CLAIMED = {
    note="trusted: the formulas as coded in the harness (a few lines each); integer data make rounding irrelevant, so summation-order effects are out of scope here (they are C09's)",
    technique="deterministic simulation: primitives under simulated thread counts/schedules with poisoned output buffers (heap-content fault injection) against exact algebraic formulas",
    replay="./build/plain/c07 --replay {path}"),
+ "C06": dict(cat="exploration", ref="4 (C06)",
+   text="Decided by simulation: the parallel level-scheduled triangular solves of the ILU family and of Gauss-Seidel equal the serial ones (bitwise for Gauss-Seidel, to rounding for ILU) for thread counts 4..32 under two seeded schedules per case, and every smoother's sweep is schedule independent. Evaluated as invariants in the same simulated worlds because they are cheap there: fixed point of the exact solution for all nine smoothers, closed formulas for damped Jacobi / Gauss-Seidel / SPAI-0, (LU)_ij = a_ij on the pattern of A through the extracted iteration matrix, exactness on tridiagonal and arrow matrices (scalar and 2x2 non-commuting blocks) and for ILU(k>n), SPAI-1 least-squares normal equations, Chebyshev affinity. Not decided: the level<=k pattern identity of ILU(k) beyond pattern(A) (the library uses a max-rule single pass, DESIGN 5.3 row 11) and ILUT's dropping rule.",
+   note="trusted: Eigen for inversion of the extracted matrices (n<=40, diagonally dominant families keep them well conditioned); tolerances 1e-9..1e-12 relative",
+   technique="deterministic simulation: seeded schedules over the level-scheduled parallel sweeps vs the serial sweep, plus definitional invariants from dense reference models",
+   replay="./build/plain/c06 --replay {path}"),
 }
 NA_PURE = {
  "C04": "pure function of (matrix, parameters): aggregation is a serial greedy loop, its parallel loops are statically partitioned without reductions; no schedule, fault or history can change the result (thread-count independence of the operators is exercised under C09)",
